@@ -6,7 +6,7 @@ from .. import tracecheck
 from ..families import stream as fam
 
 FAMILY = GFamily("stream/StreamGraph", "stream/StreamTrace", "harness.families.stream:make", hint=fam.Hint(),
-                 clause_map={"InOrderExactlyOnce": "InOrderExactlyOnceT", "Bounded": "BoundedT",
+                 fmt="hash", clause_map={"InOrderExactlyOnce": "InOrderExactlyOnceT", "Bounded": "BoundedT",
                              "ValidHold": "ValidHoldT", "Progress": "BoundedProgress",
                              "ProgressSink": "BoundedProgress", "NothingLost": "BoundedDelivery"},
                  describe=lambda s: "%s%s" % (s["cls"], s.get("args", s.get("stages", ""))))
